@@ -308,7 +308,18 @@ def _variants():
         V("simples-strategy-negated", replace_expr(FM, "FinitelyManySimplesStrategy.applies", "PinWords.has_finite_simples(self.basis)", "not PinWords.has_finite_simples(self.basis)"), "fire", "C19-S4"),
         V("simples-strategy-special-only", replace_expr(FM, "FinitelyManySimplesStrategy.applies", "PinWords.has_finite_simples(self.basis)", "PinWords.has_finite_special_simples(self.basis)"), "fire", "C19-S4"),
         V("find-strategies-one-shot", replace_stmt(IN, "find_strategies", "basis = tuple(basis)", ""), "fire", "C19-I1", "the original defect"),
+        V("rd2134-drops-first-entry-check", replace_expr(CO, "Rd2134CoreStrategy.is_valid_extension", "patt[0] == 0 and fstrip(patt).avoids(Rd2134CoreStrategy._M_PATT) and (last_comp not in Rd2134CoreStrategy._NON_INC or len(last_comp) == 1)",
+                                                          "fstrip(patt).avoids(Rd2134CoreStrategy._M_PATT) and (last_comp not in Rd2134CoreStrategy._NON_INC or len(last_comp) == 1)"), "fire", "C19-V1"),
+        V("ru2143-drops-first-entry-check", replace_stmt(CO, "Ru2143CoreStrategy.is_valid_extension", "if patt[0] != 0: ...", ""), "fire", "C19-V1", "the original defect"),
+        V("zero-plus-perm-last", replace_expr(CO, "zero_plus_perm", "perm[0] == 0", "perm[-1] == 0"), "fire", "C19-V1"),
+        V("rucu-extension-on-stripped", replace_expr(CO, "RuCuCoreStrategy.is_valid_extension", "zero_plus_skewind(patt)", "zero_plus_skewind(fstrip(patt))"), "fire", "C19-V1"),
+        V("fstrip-strips-last", replace_expr(CO, "fstrip", "perm[0] == 0", "perm[-1] == 0"), "fire", "C19-V1"),
+        V("bstrip-off-by-one", replace_expr(CO, "bstrip", "len(perm) - 1", "len(perm)"), "fire", "C19-V1"),
+        V("skewind-uses-sum", replace_expr(CO, "zero_plus_skewind", "fstrip(perm).skew_decomposable()", "fstrip(perm).sum_decomposable()"), "fire-or-undecided", "C19-V1"),
+        V("last-skew-target-top", replace_expr(CO, "last_skew_component", "set(range(i))", "set(range(n - i, n))"), "fire", "C19-V1"),
+        V("last-sum-suffix-from-left", replace_expr(CO, "last_sum_component", "perm[n - i]", "perm[i - 1]"), "fire", "C19-V1"),
         # silent
+        V("rd2134-early-return-form", replace_stmt(CO, "Rd2134CoreStrategy.is_valid_extension", "last_comp = last_sum_component(fstrip(patt))", "if patt[0] != 0:\n    return False\nlast_comp = last_sum_component(fstrip(patt))"), "silent"),
         V("reformat-init", reformat_only(IN), "silent"),
         V("reformat-core", reformat_only(CO), "silent"),
         V("wrapper-any-form", replace_stmt(AB, "EnumerationStrategyWithSymmetry.applies", "return next((True for b in syms if self._applies_to_symmetry(b)), False)", "return any((self._applies_to_symmetry(b) for b in syms))"), "silent"),
@@ -316,3 +327,122 @@ def _variants():
         V("fast-list-literal", [replace_expr(IN, None, "[InsertionEncodingStrategy]", "[InsertionEncodingStrategy, *core_strategies]"), replace_stmt(IN, None, "fast_enumeration_strategies.extend(core_strategies)", "")], "silent"),
         V("find-strategies-frozenset", replace_stmt(IN, "find_strategies", "basis = tuple(basis)", "basis = frozenset(basis)"), "silent"),
     ]
+
+
+# ------------------------------------------------------------------ V1 / H1: extensions are '1 (+) something'; shape helpers
+
+
+def conjuncts(t):
+    if isinstance(t, tuple) and t and t[0] == "and":
+        return list(t[1])
+    return [t]
+
+
+def requires_first_zero(term, helpers_ok: Set[str]) -> bool:
+    """Does the (boolean) term imply a0[0] == 0 ?  True if some conjunct is `a0[0] == 0` or a call of a helper
+    known to require it, applied to a0 (or to bstrip(a0), which keeps the first entry)."""
+    for c in conjuncts(term):
+        if c == ("cmp", "==", ("const", "0"), ("sub", ("name", "a0"), ("const", "0"))) or c == ("cmp", "==", ("sub", ("name", "a0"), ("const", "0")), ("const", "0")):
+            return True
+        if isinstance(c, tuple) and c and c[0] == "call" and c[1] is None and c[2] in helpers_ok and len(c[3]) == 1:
+            arg = c[3][0]
+            if arg == ("name", "a0") or (arg[0] == "call" and arg[2] == "bstrip" and arg[3] == (("name", "a0"),)):
+                return True
+    return False
+
+
+def rule_v1(ctx: Ctx) -> None:
+    from ..skeleton import func_term, show
+
+    repo = ctx.repo
+    mod = repo.module("permuta.enumeration_strategies.core_strategies")
+    # helpers that themselves require the first entry to be 0
+    helpers_ok: Set[str] = set()
+    for name in ("zero_plus_skewind", "zero_plus_sumind", "zero_plus_perm"):
+        f = mod.functions.get(name)
+        if f is None:
+            continue
+        t = func_term(f)
+        if t[0] == "assuming":
+            t = t[2]
+        if requires_first_zero(t, set()):
+            helpers_ok.add(name)
+            ctx.ok("C19-V1", f.where, f"{name} requires perm[0] == 0: {show(t)[:100]}", f.node, f)
+        else:
+            ctx.violation("C19-V1", f, f.node, f"{name} does not require the pattern to start with its minimum (1 (+) p): it computes {show(t)[:120]}")
+    for c in concrete_strategies(repo):
+        if "CoreStrategy" not in {k.name for k in repo.mro(c.name)}:
+            continue
+        f = repo.method(c.name, "is_valid_extension")
+        if f is None:
+            raise AnalysisError(f"{c.name}.is_valid_extension not found")
+        try:
+            t = func_term(f)
+        except AnalysisError as exc:
+            ctx.undecided.append(str(exc))
+            continue
+        # early `if patt[0] != 0: return False` shows up as a conjunct of the returned term
+        if requires_first_zero(t, helpers_ok):
+            ctx.ok("C19-V1", f.where, "an extra basis element is accepted only if it starts with its minimum (the '1 (+) p' form)", f.node, f)
+        else:
+            ctx.violation("C19-V1", f, f.node, f"{c.name}.is_valid_extension accepts patterns that are not of the form 1 (+) p (no requirement patt[0] == 0 on the unstripped pattern); it computes {show(t)[:160]}")
+    # shape helpers
+    for name, specs, what in (
+        ("fstrip", ["assert len(a0) > 0\nif a0[0] == 0:\n    return Perm.one_based(a0[1:])\nreturn a0"], "fstrip removes a leading minimum (1 (+) p -> p), otherwise the identity"),
+        ("bstrip", ["assert len(a0) > 0\nif a0[-1] == len(a0) - 1:\n    return Perm(a0[:-1])\nreturn a0"], "bstrip removes a trailing maximum (p (+) 1 -> p), otherwise the identity"),
+        ("zero_plus_skewind", ["assert len(a0) > 0\nreturn a0[0] == 0 and not fstrip(a0).skew_decomposable()", "assert len(a0) > 0\nreturn a0[0] == 0 and not fstrip(a0).is_skew_decomposable()"], "1 (+) skew-indecomposable"),
+        ("zero_plus_sumind", ["assert len(a0) > 0\nreturn a0[0] == 0 and not fstrip(a0).sum_decomposable()", "assert len(a0) > 0\nreturn a0[0] == 0 and not fstrip(a0).is_sum_decomposable()"], "1 (+) sum-indecomposable"),
+        ("zero_plus_perm", ["assert len(a0) > 0\nreturn a0[0] == 0"], "1 (+) anything"),
+    ):
+        f = mod.functions.get(name)
+        if f is not None:
+            ctx.run(check_skeleton, ctx, "C19-V1", f, specs, what)
+    for name, target in (("last_sum_component", "set(range({n} - {i}, {n}))"), ("last_skew_component", "set(range({i}))")):
+        f = mod.functions.get(name)
+        if f is not None:
+            ctx.run(check_last_component, ctx, f, target)
+
+
+def check_last_component(ctx: Ctx, f: FuncInfo, target_tpl: str) -> None:
+    """Shortest suffix whose value set is the target interval (top interval for a sum component, bottom
+    interval for a skew component), standardised."""
+    from ..core import flow_env
+
+    p = f.params[0]
+    loops = [st for st in f.body if isinstance(st, ast.While)]
+    if len(loops) != 1:
+        raise AnalysisError(f"{f.where}: suffix-growing loop not recognised")
+    lp = loops[0]
+    env = flow_env(f, lp)
+    n = next((k for k, v in env.items() if unparse(v) == f"len({p})"), None)
+    i = next((k for k, v in env.items() if unparse(v) == "1"), None)
+    comp = next((k for k, v in env.items() if unparse(v) == f"{{{p}[-1]}}"), None)
+    if None in (n, i, comp):
+        raise AnalysisError(f"{f.where}: initialisation (n = len, i = 1, comp = {{last entry}}) not recognised")
+    want_test = f"{comp} != {target_tpl.format(n=n, i=i)}"
+    if unparse(lp.test) != want_test:
+        ctx.violation("C19-V1", f, lp, f"{f.name} grows the suffix while `{unparse(lp.test)}`; the component is complete when its values are {target_tpl.format(n=n, i=i)} (expected `{want_test}`)")
+        return
+    body = [unparse(s) for s in lp.body]
+    if body != [f"{i} += 1", f"{comp}.add({p}[{n} - {i}])"]:
+        ctx.violation("C19-V1", f, lp, f"{f.name}: loop step `{'; '.join(body)}` does not extend the suffix by the next entry from the right")
+        return
+    rets = [st for st in f.body if isinstance(st, ast.Return)]
+    if len(rets) == 1 and unparse(rets[0].value) == f"Perm.to_standard({p}[{n} - {i}:{n}])":
+        ctx.ok("C19-V1", f.where, f"{f.name}: shortest suffix with value set {target_tpl.format(n=n, i=i)}, standardised", lp, f)
+    else:
+        ctx.violation("C19-V1", f, rets[0] if rets else f.node, f"{f.name} does not return the standardised suffix of length {i}")
+
+
+_OLD_RUN = run
+
+
+def run(ctx: Ctx) -> None:  # noqa: F811
+    _OLD_RUN(ctx)
+    ctx.run(rule_v1, ctx)
+
+
+FLOORS["C19-V1"] = 16
+EXPLANATION = EXPLANATION.replace("NOT decided: the shape helpers (fstrip, bstrip, last_sum_component, ...), that each patterns_needed set",
+                                  "(e) every core strategy accepts an extra basis element only in the '1 (+) p' form (V1: patt[0] == 0 required on the unstripped pattern, directly or through a zero_plus_* helper) "
+                                  "and the shape helpers fstrip, bstrip, zero_plus_*, last_sum_component, last_skew_component state their definitions (V1). NOT decided: that each patterns_needed set")
